@@ -32,6 +32,21 @@ from semantiva.configurations.load_pipeline_from_yaml import load_pipeline_from_
 from semantiva.registry.bootstrap import RegistryProfile, apply_profile
 
 
+def _publish_failure(
+    transport: SemantivaTransport, job_id: str, error: BaseException | str
+) -> None:
+    """Publish a failed status so the master can complete the job's Future."""
+    failure_ctx = ContextType()
+    failure_ctx.set_value("job_id", job_id)
+    transport.publish(
+        f"jobs.{job_id}.status",
+        data=None,
+        context=failure_ctx,
+        metadata={"job_id": job_id, "status": "error", "error": error},
+        require_ack=False,
+    )
+
+
 def worker_loop(
     worker_id: int,
     transport: SemantivaTransport,
@@ -114,6 +129,7 @@ def worker_loop(
                             worker_logger.error(
                                 f"Failed to load pipeline YAML for job {job_id} from '{pcfg}': {e}"
                             )
+                            _publish_failure(transport, job_id, e)
                             try:
                                 msg.ack()
                             except Exception:
@@ -124,6 +140,9 @@ def worker_loop(
                     ):
                         worker_logger.error(
                             f"Invalid pipeline configuration received for job {job_id}: {pcfg}"
+                        )
+                        _publish_failure(
+                            transport, job_id, "Invalid pipeline configuration"
                         )
                         msg.ack()  # acknowledge to remove the message if applicable
                         continue  # skip processing this message
@@ -168,6 +187,7 @@ def worker_loop(
                 except Exception as e:
                     # Log any error during processing without crashing the loop
                     worker_logger.exception(f"Worker failed job {job_id}: {e}")
+                    _publish_failure(transport, job_id, e)
 
             # Close this subscription before the next polling iteration
             sub.close()
